@@ -128,6 +128,9 @@ MemberSETExpression * MemberSETExpression::parse(Parser& p, Context& ctx, Expres
   /* item no MUST be constant */
   if (t->code != TOKEN_INTEGER)
     throw ParseError(EXC_PARSE_BAD_MEMB_CALL_S, KEYWORDS[BTM_SET], t);
+  /* the rank is a coded value: it must fit the index type */
+  if (t->text.size() > 9)
+    throw ParseError(EXC_PARSE_OUT_OF_INDICE, t->text.c_str(), t);
   unsigned item_no = (unsigned)std::stoul(t->text, nullptr, 10);
 
   try
